@@ -464,6 +464,20 @@ func (r *rpf) assign(l ast.Expr, v *Val, define bool) {
 			}
 		}
 	}
+	if ix, isIx := l.(*ast.IndexExpr); isIx {
+		// element of a list created inside this fold by make(): local scratch storage
+		if bid, isId := ix.X.(*ast.Ident); isId {
+			obj := r.p.TypesInfo.Uses[bid]
+			if cur, has := r.env[obj]; has && cur.K == VList && cur.Local {
+				i := r.expr(ix.Index)
+				if !i.isInt() || i.I < 0 || i.I >= int64(len(cur.L)) {
+					rpfFail("%s: index %v outside a local list of %d elements", r.c.pos(l.Pos()), i, len(cur.L))
+				}
+				cur.L[i.I] = v
+				return
+			}
+		}
+	}
 	if !ok {
 		rpfFail("%s: assignment to non-variable", r.c.pos(l.Pos()))
 	}
@@ -785,7 +799,7 @@ func (r *rpf) expr(e ast.Expr) *Val {
 				if !n.isInt() || n.I < 0 || n.I > 4096 {
 					rpfFail("%s: make with a non-constant length", r.c.pos(x.Pos()))
 				}
-				out := &Val{K: VList, T: info.TypeOf(x)}
+				out := &Val{K: VList, T: info.TypeOf(x), Local: true}
 				for i := int64(0); i < n.I; i++ {
 					out.L = append(out.L, vint(0))
 				}
